@@ -56,9 +56,12 @@ theorem fPick_live (a : AMgr) (hs : Nat) (u : Int) (care : Option (List String))
     (hh : a.handles[hs]? = some u) (hm : a.m.tbl.Mem u) :
     fPick hs care a = ((pickIter a.m.tbl u care).map List.head?, a) := aPick_live a hs u care hh hm
 
-/-- `hash(f)` = `int(f)` = the node -/
+/-- `hash(f)` = the node (`-2` for the node `-1`: CPython never returns the hash `-1`); two live
+`Function`s on the same node hash alike, which is all `__eq__` needs -/
 theorem fHash_live (a : AMgr) (hs : Nat) (u : Int) (hh : a.handles[hs]? = some u) :
-    fHash hs a = (.ok u, a) := nodeOwn_live a hs u hh
+    fHash hs a = (.ok (pyHash u), a) := by
+  show AM.bind' (nodeOwn hs) (fun s => AM.pure' (pyHash s)) a = _
+  simp [AM.bind', nodeOwn_live a hs u hh, AM.pure']
 
 /-- `str(f)` = `'@' + str(int(f))`: the text `_add_int` / the parser's `@n` read back -/
 theorem fStr_live (a : AMgr) (hs : Nat) (u : Int) (hh : a.handles[hs]? = some u) :
